@@ -23,6 +23,8 @@ def styles_for(inf):
         out.append(("range", range(lab[0], lab[0] + len(lab))))
     if len(lab) == 1:
         out.append(("node", lab[0]))
+    # a list may name a node twice: it still names the same set of nodes
+    out.append(("list-with-repeat", list(lab) + [lab[0]]))
     return out
 
 
